@@ -45,7 +45,9 @@ EXPLANATION = (
     "the generator and the descriptor (or its last byte) is sent again; (2) the multiplexer's stall latches are only cleared "
     "by the next start, and a stale latch combines with the other handler's same-cycle stall into a STALL for an existing "
     "descriptor; (3) StandardRequestHandler builds both sub-collections with automatic_language_descriptor=True, so with "
-    "runtime descriptors both handlers answer GET_DESCRIPTOR(STRING,0) and the stream is corrupted.")
+    "runtime descriptors both handlers answer GET_DESCRIPTOR(STRING,0) and the stream is corrupted; (4) expecting_ack is not "
+    "cleared when a request closes, so after a request whose last data packet was never ACKed an ACK observed before the "
+    "first data packet of the next GET_DESCRIPTOR advances start_position (the data stage then starts at offset max_packet).")
 ASSUMPTIONS = [
     "request fields (value, length, start_position) are held stable from start until the response (packet/ZLP/stall) ends",
     "no start strobe while a response is in progress (one IN token at a time)",
@@ -415,7 +417,7 @@ def make_mux(build, maxpkt):
 def coll_runtime():
     ds = DeviceDescriptorCollection(automatic_language_descriptor=False)
     ds.add_descriptor(get_string_descriptor("runtime"), index=7)                 # 16 bytes
-    ds.add_descriptor(b'\x05\x22\x01\x02\x03', index=0, descriptor_type=0x22)
+    ds.add_descriptor(b'\x05\x23\x01\x02\x03', index=0, descriptor_type=0x23)
     return ds
 
 
@@ -462,18 +464,16 @@ def make_request_handler(coll_fn, maxpkt):
                   why="this contract covers GET_DESCRIPTOR handling only; other requests and their interleavings are C07/C10")
         c.require("no_setup_inside_open_request", z3.Implies(isgd, z3.Not(received)),
                   why="a new SETUP during an unfinished request is the subject of C07")
-        c.require("ack_only_for_a_started_packet", z3.Implies(z3.And(isgd, ack), exp == 1),
-                  why="an ACK handshake is only seen after a data packet of this request was started (no foreign/stray ACKs). "
-                      "NOTE (robustness finding, outside the statement's quantifier): `expecting_ack` is not cleared when a "
-                      "request closes, so after a request whose last ACK was lost a stray ACK at the start of the next "
-                      "GET_DESCRIPTOR would advance start_position before any data was sent")
         fsm = ts.fsm("fsm_state")
         c.inv("fsm_legal", fsm.legal())
         c.inv("state_is_get_descriptor_iff_open", fsm.is_("GET_DESCRIPTOR") == isgd)
         c.inv("idle_otherwise", z3.Implies(z3.Not(isgd), fsm.is_("IDLE")))
         c.inv("start_position_register", z3.Implies(isgd, reg(ts, "start_position") == epos))
-        # (the register may be stale-high from an earlier request that closed without its last ACK; harmless under the require)
-        c.inv("expecting_ack_register", z3.Implies(z3.And(isgd, exp == 1), reg(ts, "expecting_ack") == 1))
+        # expecting_ack must mean "a data packet of THIS request awaits its ACK".  (On the unchanged tree the register is not
+        # cleared when a request closes, so it can be stale-high from an earlier request whose last ACK never came; an ACK
+        # seen before the first data packet of the next GET_DESCRIPTOR then advances start_position: finding, fix in
+        # proposed_fixes/C09_expecting_ack_reset.diff.)
+        c.inv("expecting_ack_register", z3.Implies(isgd, reg(ts, "expecting_ack") == exp))
         c.inv("pid_register", z3.Implies(isgd, reg(ts, "tx_data_pid") == pid))
         c.ensure("start_position_is_acked_packets_times_max_packet", z3.Implies(isgd, h("start_position") == epos),
                  clause="read in max-packet-size pieces: start_position is 0 for the first packet of a request and advances by "
